@@ -64,36 +64,64 @@ def obligations(tier):
         if n >= 10: w.append("nul_in_address")
         if n >= 12: w.append("accepted_K_with_recipient")
         return w
-    obls.append(Obl("qmqpd_main", "qmqpd.c",
+    def qmqp_unw(n):
+        # loop bounds from the byte budget of an n-byte request, each proved by its unwinding assertion:
+        # ":" + ":," + ":," = 5 bytes precede the first recipient, a recipient takes at least 2 bytes (":,")
+        return {"qmqpd_main~while (bytesleft)": max(0, n - 5) // 2 + 2, "qmqpd_main~while (len > 0)": max(0, n - 3) + 2,
+                "getbuf": max(0, n - 4) + 2, "getlen": n + 2, "byte_chr": n // 4 + 2,
+                "substdio_put": 56, "strlen": 56, "fmt_ulong": 4, "fmt_str": 8}
+    QMQP = dict(
         progs=[Prog("qmail-qmqpd.c", sub=[(r"^main\(\)", "qmqpd_main()", 1)])],
         repo=["fmt_ulong.c", "fmt_str.c", "byte_chr.c"], lib=["ideal_substdio.c"],
         sysrename=["_exit", "read", "write", "alarm", "chdir", "time"],
-        grid=[{"N": n} for n in (range(0, 11) if q else range(0, 13))],
-        unwind_default=lambda p: p["N"] + 3,
-        unwind={"substdio_put": 56, "strlen": 56, "fmt_ulong": 4, "fmt_str": 8},
-        timeout=1200,
+        timeout=1500,
         functions=["qmail-qmqpd.c:main", "qmail-qmqpd.c:getlen", "qmail-qmqpd.c:getbyte", "qmail-qmqpd.c:getcomma", "qmail-qmqpd.c:getbuf",
                    "qmail-qmqpd.c:identify", "qmail-qmqpd.c:saferead", "fmt_ulong.c", "fmt_str.c", "byte_chr.c"],
         cuts=["qmail_open/put/from/to/fail/close -> contract proved by qmail_unit", "received -> marker (received_safe)"],
         stubs=["substdio: ideal streams; read() returns the next request byte, 0 after the last", "env_get: unset; chdir/qmail_open may fail",
                "sig_*, alarm: no-ops; time(): constant"],
+        outside=["requests longer than the grid", "write errors towards the client", "SIGALRM"])
+    obls.append(Obl("qmqpd_main", "qmqpd.c",
+        grid=[{"N": n} for n in (range(0, 11) if q else range(0, 13))],
+        unwind_default=lambda p: p["N"] + 3, unwind=lambda p: qmqp_unw(p["N"]),
         assumes=["the client sends exactly N arbitrary bytes and disconnects; qmail-queue outcome ok/permanent/temporary; one write failure anywhere"],
-        outside=["requests longer than the grid", "write errors towards the client", "SIGALRM"],
         claim="for every N-byte input: K iff the queue connection closed successfully, and then exactly the request's message, sender and "
               "recipients were handed over; complete malformed frames exit 100 with nothing queued; NUL in an address => D; "
               "truncated requests queue nothing",
-        expect_witnesses=qmqp_wit))
+        expect_witnesses=qmqp_wit, **QMQP))
+    TQ = "request matches the template of harness/C07/qmqp_template.h (all values of its symbolic bytes); "
+    obls.append(Obl("qmqpd_tmpl_rcpt", "qmqpd.c", defines={"TEMPLATE": 1},
+        grid=[{"TL": l} for l in ([0, 1, 3, 8] if q else range(0, 13))],
+        unwind_default=lambda p: 16 + p["TL"] + 3, unwind=lambda p: qmqp_unw(16 + p["TL"]),
+        assumes=[TQ + "template 1: one recipient netstring with symbolic length field, separator, first/last payload byte, terminator, outer terminator"],
+        claim="template 1 (recipient framing): same claim as qmqpd_main for every value of the 7 symbolic bytes",
+        expect_witnesses=lambda p: ["exit", "malformed_after_open", "accepted_K", "accepted_K_with_recipient", "queue_permanent", "queue_temporary", "resources"]
+                                   + (["nul_in_address"] if p["TL"] else []), **QMQP))
+    obls.append(Obl("qmqpd_tmpl_sender", "qmqpd.c", defines={"TEMPLATE": 3},
+        grid=[{"TS": x} for x in ([1, 2] if q else [0, 1, 2, 3, 4])],
+        unwind_default=lambda p: 16 + p["TS"] + 3, unwind=lambda p: qmqp_unw(16 + p["TS"]),
+        assumes=[TQ + "template 3: sender netstring with symbolic length digit, separator, TS bytes and terminator"],
+        claim="template 3 (sender): NUL in the sender => D, nothing queued; framing of the sender netstring",
+        expect_witnesses=["exit", "malformed_after_open", "accepted_K_with_recipient", "nul_in_address"], **QMQP))
     def qmtp_wit(p):
-        if "L" in p:
-            w = ["exit", "disconnect_after_open", "malformed_after_open", "resources"]
-            if p["L"] >= 0: w += ["accepted_K"]
-            return w
-        n, db = p["N"], p["DB"]
+        n = p["N"]
         w = ["exit"]
-        if n >= 3: w.append("disconnect_after_open")
-        if n >= 3: w.append("malformed_after_open")
-        if n >= 13: w += ["accepted_K", "queue_permanent", "queue_temporary", "resources", "recipient_refused", "accepted_K_relay"]
+        if n >= 3: w += ["disconnect_after_open", "malformed_after_open"]
+        if n >= 8: w += ["resources"]
+        if n >= 10: w += ["bad_sender"]
+        if n >= 11: w += ["accepted_K", "queue_permanent", "queue_temporary", "recipient_refused", "accepted_K_relay"]
         return w
+    def qmtp_unw(n):
+        # Loop bounds from the byte budget of an n-byte connection (each one is proved by its unwinding assertion):
+        # at least 7 bytes precede the recipients' payload ("1:" mode "," ":," ":"), a recipient takes at least 2 (":,").
+        pay = max(0, n - 7)
+        return {"qmtpd_main~      for (;;) {": pay + 2,                 # digits of a recipient's length   (more specific key first)
+                "qmtpd_main~for (;;) {": 2,                            # packages: the second one only meets the EOF
+                "qmtpd_main~while (biglen > 0)": pay // 2 + 2,
+                "qmtpd_main~        for (i = 0;i < len;++i)": max(0, pay - 1) + 2,   # recipient bytes
+                "qmtpd_main~for (i = 0;i < len;++i)": max(0, n - 5) + 2,             # sender bytes
+                "qmtpd_main~i < failure.len": pay // 2 + 2,
+                "strlen": 72, "fmt_ulong": 4, "fmt_str": 72}
     QMTP = dict(
         progs=[Prog("qmail-qmtpd.c", sub=[(r"^main\(\)", "qmtpd_main()", 1)])],
         repo=["fmt_ulong.c", "fmt_str.c", "stralloc_opys.c", "stralloc_opyb.c", "stralloc_pend.c", "byte_copy.c"],
@@ -109,17 +137,71 @@ def obligations(tier):
         outside=["connections longer than the grid", "a second complete package on the same connection", "write errors towards the client", "SIGALRM"])
     obls.append(Obl("qmtpd_main", "qmtpd.c",
         defines={"ARENA_CAP": 16, "ARENA_SLOTS": 1},
-        grid=[{"N": n, "DB": 0} for n in (range(0, 14) if q else range(0, 14))],
+        grid=[{"N": n, "DB": 0} for n in (range(0, 11) if q else range(0, 14))],
         unwind_default=lambda p: p["N"] + 3,
         # the per-package loop: a second package is started (it reads the EOF) but can never be completed inside the bound,
         # which the unwinding assertion proves; the more specific key (inner length loop) must come first
-        unwind=lambda p: {"qmtpd_main~      for (;;) {": p["N"] + 3, "qmtpd_main~for (;;) {": 2,
-                          "qmtpd_main~i < failure.len": p["N"] // 3 + 3,
-                          "strlen": 72, "fmt_ulong": 4, "fmt_str": 8},
+        unwind=lambda p: qmtp_unw(p["N"]),
         assumes=["the client sends exactly N arbitrary bytes and disconnects; databytes = DB; qmail-queue outcome ok/permanent/temporary; "
                  "one write failure anywhere; RELAYCLIENT unset or set"],
         claim="for every N-byte connection: K only after a successful close, replies exactly per recipient (K iff acceptable and queued, D for policy), "
               "queued content = decoded body, sender, acceptable recipients (+relay suffix) in order; malformed netstrings exit 100; bad sender / "
               "oversize => D, nothing queued; truncated packages queue nothing",
         expect_witnesses=qmtp_wit, **QMTP))
+    TM = "connection = one package matching the template of harness/C07/qmtp_template.h (all values of its symbolic bytes), cut off nowhere; "
+    obls.append(Obl("qmtpd_tmpl_rcpt", "qmtpd.c",
+        defines={"ARENA_CAP": 16, "ARENA_SLOTS": 1, "TEMPLATE": 1, "DB": 0},
+        grid=[{"TL": l} for l in ([0, 1, 2, 3, 10] if q else range(0, 13))],
+        unwind_default=lambda p: 15 + p["TL"] + 3, unwind=lambda p: qmtp_unw(15 + p["TL"]),
+        assumes=[TM + "template 1: recipients section with symbolic length fields, separators, first/last payload byte and terminators around L filler bytes"],
+        claim="template 1 (recipients framing): same claim as qmtpd_main for every value of the <= 10 symbolic bytes",
+        expect_witnesses=lambda p: ["exit", "disconnect_after_open", "malformed_after_open", "resources", "accepted_K", "recipient_refused",
+                                    "queue_permanent", "queue_temporary", "accepted_K_relay"], **QMTP))
+    if not q: obls.append(Obl("qmtpd_tmpl_body", "qmtpd.c",
+        defines={"ARENA_CAP": 16, "ARENA_SLOTS": 1, "TEMPLATE": 2},
+        # expensive (the CR LF loop makes every later stream position symbolic): thorough tier only
+        grid=[{"TB": b, "DB": d} for (b, d) in [(2, 1), (3, 0), (3, 1), (3, 2), (4, 2), (4, 3)]],
+        unwind_default=lambda p: 13 + p["TB"] + 3, unwind=lambda p: qmtp_unw(13 + p["TB"]),
+        assumes=[TM + "template 2: mode byte and B-1 body bytes symbolic, databytes = DB"],
+        claim="template 2 (body): CR LF decoding and the databytes limit for every mode byte and body of B-1 bytes",
+        expect_witnesses=lambda p: ["exit", "accepted_K", "malformed_after_open"] + (["accepted_K_crlf_decoded"] if p["TB"] >= 3 and (p["DB"] == 0 or p["DB"] >= p["TB"] - 2) else [])
+                                   + (["one_byte_over"] if p["DB"] and p["TB"] - 1 > p["DB"] else [])
+                                   + (["exactly_databytes_crlf_mode"] if p["DB"] and p["TB"] - 1 >= p["DB"] else []), **QMTP))
+    obls.append(Obl("qmtpd_tmpl_sender", "qmtpd.c",
+        defines={"ARENA_CAP": 16, "ARENA_SLOTS": 1, "TEMPLATE": 3, "DB": 0},
+        grid=[{"TS": x} for x in ([1, 2] if q else [0, 1, 2, 3, 4])],
+        unwind_default=lambda p: 15 + p["TS"] + 3, unwind=lambda p: qmtp_unw(15 + p["TS"]),
+        assumes=[TM + "template 3: sender netstring with symbolic length digit, separator, S bytes and terminator"],
+        claim="template 3 (sender): NUL in the sender => D for every recipient, nothing queued; framing of the sender netstring",
+        expect_witnesses=["exit", "accepted_K", "bad_sender", "malformed_after_open", "disconnect_after_open"], **QMTP))
+    obls.append(Obl("qmtpd_tmpl_two", "qmtpd.c",
+        defines={"ARENA_CAP": 16, "ARENA_SLOTS": 1, "TEMPLATE": 4, "DB": 0},
+        unwind_default=21, unwind=qmtp_unw(18),
+        assumes=[TM + "template 4: two one-byte recipients, any bytes, independent rcpthosts verdicts"],
+        claim="template 4 (two recipients): replies in recipient order, K exactly for the acceptable ones, which are exactly the ones handed to the queue",
+        expect_witnesses=["exit", "accepted_K", "recipient_refused", "resources", "accepted_K_relay", "queue_permanent", "queue_temporary"], **QMTP))
+    def long_n5(al):
+        dg = lambda x: len(str(x))
+        big = dg(al) + 1 + al + 1
+        return 7 + dg(big) + 1 + big + 1
+    obls.append(Obl("qmtpd_long_rcpt", "qmtpd.c",
+        defines={"ARENA_CAP": 16, "ARENA_SLOTS": 1, "TEMPLATE": 5, "DB": 0},
+        # the request is a 1 kB array that is concrete almost everywhere: without element-wise constant propagation
+        # (cbmc's default limit is 64 elements) every stream position becomes symbolic and symex does not finish
+        flags=["--max-field-sensitivity-array-size", "2048"],
+        grid=[{"AL": a} for a in ([999, 1000] if q else [997, 998, 999, 1000])],
+        unwind_default=lambda p: long_n5(p["AL"]) + 3, unwind=lambda p: qmtp_unw(long_n5(p["AL"])),
+        assumes=[TM + "template 5: one recipient of AL bytes, first and last byte symbolic, everything else concrete"],
+        claim="template 5 (address length limit): a recipient whose length plus the RELAYCLIENT suffix reaches 1000 bytes is answered D and not queued, "
+              "one byte less is accepted; no buffer is overrun (standard checks on)",
+        expect_witnesses=lambda p: ["exit", "recipient_refused"] + (["accepted_K"] if p["AL"] < 1000 else []) + (["accepted_K_relay"] if p["AL"] <= 997 else []),
+        **QMTP))
+    obls.append(Obl("qmtpd_long_sender", "qmtpd.c",
+        defines={"ARENA_CAP": 16, "ARENA_SLOTS": 1, "TEMPLATE": 6, "DB": 0},
+        flags=["--max-field-sensitivity-array-size", "2048"],
+        grid=[{"AL": a} for a in [999, 1000]],
+        unwind_default=lambda p: p["AL"] + 30, unwind=lambda p: qmtp_unw(p["AL"] + 4 + len(str(p["AL"])) + 8),
+        assumes=[TM + "template 6: sender of AL bytes, first and last byte symbolic, everything else concrete"],
+        claim="template 6 (sender length limit): a sender of 1000 bytes is refused with D for every recipient, 999 bytes are accepted",
+        expect_witnesses=lambda p: ["exit", "bad_sender"] + (["accepted_K"] if p["AL"] < 1000 else []), **QMTP))
     return obls
